@@ -160,10 +160,9 @@ func (p *Path) check(t *Term) string {
 	r := p.solver.Check()
 	p.solver.Send("(pop 1)\n")
 	if r == "unknown" {
+		// any unknown makes the harness inconclusive: end the path here instead of piling up timeouts
 		p.unknowns++
-		if p.solver.Dead() {
-			panic(pathEnd{Outcome{Kind: OutUnsupported, Msg: "solver timeout (watchdog) - inconclusive at this bound"}})
-		}
+		panic(pathEnd{Outcome{Kind: OutUnsupported, Msg: "solver unknown/timeout - inconclusive at this bound"}})
 	}
 	return r
 }
